@@ -74,7 +74,8 @@ STUBS = {
 
 
 def _model(direction="max"):
-    rxns = [RxnLP("R_a", -11.0, 17.0), RxnLP("R_b", 0.0, 23.0), RxnLP("R_c", -29.0, 0.0), RxnLP("R_d", -5.0, 5.0)]
+    # R_b and R_c are wider than the library's default bounds (+-1000): nothing may be clipped to the defaults
+    rxns = [RxnLP("R_a", -11.0, 17.0), RxnLP("R_b", 0.0, 2300.0), RxnLP("R_c", -2900.0, 0.0), RxnLP("R_d", -5.0, 5.0)]
     return ModelLP(rxns, {"R_b": 1.0, "R_a": 0.25}, direction)
 
 
